@@ -326,10 +326,20 @@ def run(tier, seed):
             {"swap_multiples": [10, 21, 27], "multiple": 3, "result": list(M.swap_multiples(bytes([10, 21, 27]), 3))},
         ],
     }
+    from .. import kwforms
+
+    for w in kwforms.check("encrypt"):
+        violations.append({"key": "keyword-form:" + w.split(":")[0][:60], "what": w, "case": {"kwforms": True}})
+    coverage["keyword_call_forms_checked"] = True
     return {"coverage": coverage, "violations": violations}
 
 
 def replay(case):
+    if isinstance(case, dict) and case.get("kwforms"):
+        from .. import kwforms
+
+        bad = kwforms.check("encrypt")
+        return bad[0] if bad else None
     loader.install_shims()
     fn = case["fn"]
     VIEW[0] = bool(case.get("view"))
